@@ -99,6 +99,20 @@ void division_residual(Ctx &c) {
     // network with some huge impedances) while cond(W) grows -- the case in which an explicit inverse shows in the residual
     Mat D(n, n); for (int i = 0; i < n; i++) D(i, i) = C(std::pow(10.0L, (long double)decades * i / (n - 1)), 0);
     Mat Wl = vm::mul(vm::mul(Q1, D), Q2);
+    // "cancelling leading block", a quarter of the cases with n >= 3: a well-conditioned matrix whose leading 2x2 block is
+    // singular (exactly, or to 1e-12 .. 1e-6) while the diagonal element of its second row is the largest of that row --
+    // after the first elimination step the natural pivot of the second column is (nearly) zero and only a pivot search
+    // over the REDUCED column finds a usable one
+    bool block = n >= 3 && c.chance(1, 4);
+    if (block) {
+        for (int i = 0; i < n; i++) for (int j = 0; j < n; j++) Wl(i, j) = C(c.real(-0.3, 0.3), c.real(-0.3, 0.3)) + (i == j && i >= 2 ? C(c.boolean() ? 2.0L : -2.0L, 0) : C(0, 0));
+        C a = polar(0.5L + 0.5L * c.unit(), 2 * M_PIl * c.unit()), b = polar(1.0L + c.unit(), 2 * M_PIl * c.unit());
+        static const long double dl[5] = {0, 0, 1e-12L, 1e-9L, 1e-6L};
+        long double delta = dl[c.draw(5)];
+        C t; switch (c.draw(5)) { case 0: t = C(1, 0); break; case 1: t = C(-1, 0); break; case 2: t = C(2, 0); break; case 3: t = C(0, 1); break; default: t = polar(1.0L + c.unit(), 2 * M_PIl * c.unit()); }
+        Wl(0, 0) = a; Wl(0, 1) = b; Wl(1, 0) = t * a; Wl(1, 1) = t * b * (1 + delta);
+        decades = 0;
+    }
     long double r = 50;
     std::vector<dcx> z(n * n), sv(n * n, mkc(0, 0)), z0(n, mkc(50, 0));
     for (int i = 0; i < n; i++) for (int j = 0; j < n; j++) { C v = Wl(i, j) * 30.0L - (i == j ? C(r, 0) : C(0, 0)); z[i * n + j] = mkc((double)v.real(), (double)v.imag()); }
@@ -106,6 +120,7 @@ void division_residual(Ctx &c) {
     Mat W(n, n), B(n, n);
     for (int i = 0; i < n; i++) for (int j = 0; j < n; j++) { C v(re_(z[i * n + j]), im_(z[i * n + j])); W(i, j) = v + (i == j ? C(r, 0) : C(0, 0)); B(i, j) = v - (i == j ? C(r, 0) : C(0, 0)); }
     long double kap = vm::cond2(W);
+    if (block) { if (!(kap <= 1e4L)) { c.label("a2:cancelling-leading-block:filtered(ill-conditioned)"); return; } c.label("a2:cancelling-leading-block"); }
     c.label("a2:division-residual"); { char l[40]; snprintf(l, sizeof l, "a2:cond=1e%d", (int)std::floor(std::log10((double)kap) + 0.5)); c.label(l); }
     c.note("vnaconv_ztosn n=%d, uniform z0 = 50, cond(Z + z0 I) = %.3Lg", n, kap);
     vnaconv_ztosn(z.data(), sv.data(), z0.data(), n);
@@ -115,7 +130,7 @@ void division_residual(Ctx &c) {
     long double rn = rowsum_norm(R), scale = rowsum_norm(S) * rowsum_norm(W) + rowsum_norm(B);
     c.track_max("division: residual / (n eps scale)", (double)(rn / (n * EPS * scale)));
     PBT_CHECK(c, rn <= 1e3L * n * EPS * scale, "C19.division_residual", "vnaconv_ztosn, n=%d, cond(Z + z0 I) = %.3Lg: |S (Z + z0 I) - (Z - z0 I)| = %.3Lg, i.e. %.3Lg n eps (|S||Z + z0 I| + |Z - z0 I|); a backward-stable solve leaves O(1)", n, kap, rn, rn / (n * EPS * scale));
-    if (kap > 1e6L) c.nontrivial();
+    if (kap > 1e6L || block) c.nontrivial();
 }
 
 // ---- (b) apply with badly scaled / singular 'a' matrices -------------------------------------------
